@@ -208,9 +208,21 @@ fn walk_file(w: &mut W, file: &SimFile, inv_objects: Option<&[(u64, ObjKind)]>) 
                     w.note("ops", &r);
                 }
             }
-            let r = w.call("Lazy<Annots>::load", || page.annotations.load(&res).map(|a| a.len()));
-            if let Some(r) = r {
-                w.note("annots", &r);
+            let annots = w.call("Lazy<Annots>::load", || page.annotations.load(&res));
+            if let Some(r) = &annots {
+                w.note("annots", r);
+            }
+            if let Some(Ok(list)) = annots {
+                for a in list.iter().take(6) {
+                    if let Some(ap) = &a.appearance_streams {
+                        for entry in [Some(ap.normal), ap.rollover, ap.down].into_iter().flatten() {
+                            let r = w.call("get<AppearanceStreamEntry>", || res.get(entry).map(|_| ()));
+                            if let Some(r) = r {
+                                w.note("ap", &r);
+                            }
+                        }
+                    }
+                }
             }
         }
     }
